@@ -171,6 +171,192 @@ def gen_sm(ctx, rng):
                 sampler="list", startup=gen_startup(rng, 0.25, 0.04))
 
 
+def gen_aw(ctx, rng):
+    """AdaptiveWeightsCondition: a PINN-type condition on a static sampler with one learnable weight per point"""
+    while True:
+        c = gen_sm(ctx, rng)
+        if c["cls"] == "pinn" and c["interval"] is None:
+            break
+    n = len(c["sets"][0])
+    c.update(cls="aw", static=True, err=rng.choice(["sq", "sq", "abs"]), red="mean",
+             weights=[js(cc.dy(rng, 1, 12, 4)) for _ in range(n)])
+    return c
+
+
+def gen_int(ctx, rng):
+    """IntegroPINNCondition: points x integral points, the integral variables overwritten by name"""
+    space = gen_space(rng, VARS, 1, 3)
+    ivars = rng.sample(space, rng.randint(1, len(space)))
+    in_space = space[:]
+    rng.shuffle(in_space)
+    out_space = gen_space(rng, OUTS, 1, 2)
+    net = {"in": in_space, "out": out_space,
+           "body": [pe_to_json(cc.gen_pe(rng, scalar_vars(in_space), 2)) for _ in range(dim_of(out_space))]}
+    n, m = rng.choice([1, 2, 3]), rng.choice([1, 2, 3])
+    param = []
+    if rng.random() < 0.4:
+        param = [[rng.choice(PARS), [js(cc.dy(rng))]]]
+    data = [gen_fn(rng, dn, space, rng.randint(1, 2)) for dn in rng.sample(DATA, rng.choice([0, 1, 1]))]
+    for d in data:
+        d["wrap"] = rng.random() < 0.3
+    integral = [[o + "_integral", m * d] for o, d in out_space] + [[v + "_integral", m * d] for v, d in ivars]
+    avail = list(space) + out_space + [[p[0], len(p[1])] for p in param] + [[d["name"], len(d["body"])] for d in data] + integral
+    resid = gen_fn(rng, "resid", avail, rng.randint(1, 2), deg=2)
+    if not set(resid["params"]) & {a[0] for a in integral} or rng.random() < 0.5:
+        nm, dm = rng.choice(integral)
+        if nm not in resid["params"]:
+            resid["params"].insert(0, nm)
+        # e.g. u - mean_j u_integral_j: a sum over the integral points
+        resid["body"][0] = ["-", resid["body"][0], pe_to_json(cc.pe_sum([('*', ('c', F(1, m)), ('v', nm, j)) for j in range(dm)]))]
+    varying = [a[0] for a in list(space) + out_space]
+    if not set(resid["params"]) & set(varying):
+        resid["params"].insert(0, rng.choice(varying))
+    # every component depends on the point (a residual of integral rows / parameters only is a 1-row tensor)
+    vn = next(v for v in resid["params"] if v in varying)
+    resid["body"] = [["+", b, ["*", ["c", js(cc.dy(rng, 1, 4, 2))], ["v", vn, 0]]] for b in resid["body"]]
+    resid["kwonly"] = 0
+    custom = rng.random() < 0.3
+    err, red = (rng.choice(["sq", "id"]), rng.choice(["mean", "sum", "max"])) if custom else ("sq", "mean")
+    calls = rng.choice([1, 2])
+    return dict(kind="int", space=space, ispace=ivars, net=net, n=n, m=m, param=param, data=data, resid=resid,
+                static=rng.random() < 0.4, istatic=rng.random() < 0.3, calls=calls, custom=custom, err=err, red=red,
+                sets=[gen_rows(rng, n, dim_of(space)) for _ in range(calls + 3)],
+                isets=[gen_rows(rng, m, dim_of(ivars)) for _ in range(calls + 1)],
+                startup=gen_startup(rng, 0.3, 0.05))
+
+
+def run_int(case):
+    C = classes()
+    tp, torch = C["tp"], C["torch"]
+    inner = C["ListSampler"](case["space"], [prow(s) for s in case["sets"]])
+    sampler = inner.make_static() if case["static"] else inner
+    rec = Recorder(sampler)
+    iinner = C["ListSampler"](case["ispace"], [prow(s) for s in case["isets"]])
+    isampler = iinner.make_static() if case["istatic"] else iinner
+    rec_i = Recorder(isampler)
+    net = case["net"]
+    model = C["PolyModel"](net["in"], net["out"], [pe_from_json(b) for b in net["body"]])
+    obs = Obs()
+    user_dict = {d["name"]: build_fn(C, d, []) for d in case["data"]}
+    resid = build_fn(C, case["resid"], obs.resid_args, record_out=obs.resid_out)
+    kw = dict(data_functions=user_dict)
+    if case["param"]:
+        pn, pv = case["param"][0]
+        kw["parameter"] = tp.models.Parameter([float(F(v)) for v in pv], mk_space([[pn, len(pv)]]))
+    if case["custom"]:
+        kw["error_fn"] = ERR_FNS[case["err"]](tp, torch)
+        kw["reduce_fn"] = RED_FNS[case["red"]](torch)
+    out = dict(losses=[], points=[], ipoints=[], errors=[], construct_points=[])
+    try:
+        cond = tp.conditions.IntegroPINNCondition(model, sampler, resid, isampler, **kw)
+    except Exception as e:  # noqa
+        out["errors"].append(("construct", classify_exc(e)))
+        return out
+    out["construct_points"] = list(rec.calls)
+    if not do_startup(case, [cond], out, [obs.resid_args, obs.resid_out]):
+        return out
+    for k in range(case["calls"]):
+        b, bi, n_obs = len(rec.calls), len(rec_i.calls), len(obs.resid_args)
+        try:
+            out["losses"].append(float(cond.forward()))
+        except Exception as e:  # noqa
+            out["losses"].append(None)
+            out["errors"].append((k, classify_exc(e)))
+        out["points"].append(rec.calls[b:])
+        out["ipoints"].append(rec_i.calls[bi:])
+        if len(obs.resid_args) == n_obs:
+            obs.resid_args.append(None)
+            obs.resid_out.append(None)
+    out["resid_args"], out["resid_out"] = obs.resid_args, obs.resid_out
+    return out
+
+
+def lines_int(case, res):
+    if res["errors"] and res["errors"][0][0] == "construct":
+        return []
+    pre = pre_tok(case["static"], None, res["construct_points"])
+    lines = []
+    for k in range(case["calls"]):
+        if len(res["points"][k]) != 1 or len(res["ipoints"][k]) != 1:
+            lines.append(None)
+            continue
+        p, q_ = res["points"][k][0], res["ipoints"][k][0]
+        lines.append(" ".join(["int", tok_space(p["space"]), tok_space(q_["space"]), tok_table(p["rows"]), tok_table(q_["rows"]),
+                               net_tok(case["net"]), resid_ufun_tok(case),
+                               lst(case["data"], lambda d: d["name"] + " " + fn_tok(d)), pre,
+                               tok_named([(n, [F(v) for v in vs]) for n, vs in case["param"]]), case["err"], case["red"]]))
+    return lines
+
+
+def judge_int(rep, case, res, replies):
+    rep.count("int:" + ("static" if case["static"] else "non-static") + ("+static-integral-sampler" if case["istatic"] else ""))
+    rep.count(f"int:integral-variables={len(case['ispace'])}-of-{len(case['space'])}")
+    count_shapes(rep, [case["resid"]] + case["data"])
+    count_startup(rep, case)
+    if res["errors"]:
+        for where, what in res["errors"]:
+            rep.fail(f"IntegroPINNCondition raised at {where}: {what}", case)
+        return
+    body = [pe_from_json(b) for b in case["net"]["body"]]
+    for k in range(case["calls"]):
+        if len(res["points"][k]) != 1 or len(res["ipoints"][k]) != 1:
+            rep.fail(f"IntegroPINNCondition: forward call {k} drew {len(res['points'][k])} point sets and {len(res['ipoints'][k])} integral point sets", case)
+            continue
+        p, q_ = res["points"][k][0], res["ipoints"][k][0]
+        n = len(p["rows"])
+        args, out, loss = res["resid_args"][k], res["resid_out"][k], res["losses"][k]
+        if args is None:
+            rep.fail(f"IntegroPINNCondition: forward call {k} never called the residual", case)
+            continue
+        if len(out) != n:
+            rep.fail(f"IntegroPINNCondition: forward call {k}: the residual tensor has {len(out)} rows for {n} sampled points "
+                     f"(an argument does not have the (points, 1, dim) layout of the others)", case,
+                     detail=dict(call=k, rows_of_arguments={a: len(v) for a, v in args.items()}))
+            continue
+        doc = documented_reduction(case["err"], case["red"], out)
+        if doc is None or not close(loss, float(doc), TOL["rel"], TOL["abs"]):
+            rep.fail(f"integro: forward call {k} returned {loss!r}; the documented reduction ({case['err']}/{case['red']}) of the "
+                     f"residual values on the {n} sampled points is {float(doc)!r}", case)
+        exp = {}
+        envs = [named_row(p["space"], r) for r in p["rows"]]
+        ienvs = [named_row(q_["space"], r) for r in q_["rows"]]
+        for nm, d in p["space"]:
+            exp[nm] = [e[nm] for e in envs]
+        for nm, d in q_["space"]:
+            exp[nm + "_integral"] = [[v for ie in ienvs for v in ie[nm]] for _ in envs]
+        kk = 0
+        for nm, d in case["net"]["out"]:
+            exp[nm] = [[pe_frac(b, e) for b in body[kk:kk + d]] for e in envs]
+            exp[nm + "_integral"] = [[pe_frac(b, dict(e, **ie)) for ie in ienvs for b in body[kk:kk + d]] for e in envs]
+            kk += d
+        for d in case["data"]:
+            exp[d["name"]] = [eval_fn_spec(d, e) for e in envs]
+        for nm, vs in case["param"]:
+            exp[nm] = [[F(v) for v in vs] for _ in envs]
+        for nm, vs in case["resid"]["defaults"]:
+            exp.setdefault(nm, [[F(v) for v in vs] for _ in envs])
+        for name, got in args.items():
+            want = exp.get(name)
+            if want is None or not rows_close(expand(got, n), want, 1e-12, 1e-12):
+                what = ("the integral rows paired with each sampled point (integral variables overwritten by name)"
+                        if name.endswith("_integral") else "its value on the rows the sampler produced for this call")
+                rep.fail(f"integro: forward call {k}: argument '{name}' seen by the residual is not {what}", case,
+                         detail=dict(call=k, name=name, got=[[str(v) for v in r] for r in expand(got, n)][:4],
+                                     want=None if want is None else [[str(v) for v in r] for r in want][:4]))
+        m = parse_reply(replies[k]) if replies[k] is not None else dict(error="no-line")
+        if "error" in m:
+            rep.disagree("int: model rejects, implementation returns a loss", dict(case=case, call=k), loss, m["error"])
+            continue
+        if not close(loss, float(m["loss"]), TOL["rel"], TOL["abs"]):
+            rep.disagree("int loss: drivers/C04.lean `int` vs IntegroPINNCondition.forward()", dict(case=case, call=k), loss, str(m["loss"]))
+        for i in range(n):
+            for j, name in enumerate(case["resid"]["params"]):
+                got = expand(args[name], n)[i]
+                if not rows_close([got], [m["bound"][i][j]], 1e-12, 1e-12):
+                    rep.disagree(f"int argument binding '{name}' row {i}", dict(case=case, call=k), [str(v) for v in got], [str(v) for v in m["bound"][i][j]])
+                    return
+
+
 TP_SPACES = dict(interval=[["x", 1]], par2d=[["x", 2]], product=[["x", 1], ["t", 1]], dependent=[["x", 1], ["t", 1]])
 
 
@@ -243,6 +429,9 @@ def build_fn(C, spec, obs_list, ders=(), out_space=None, in_space=None, record_o
         like = None
         for k, v in args.items():
             if torch.is_tensor(v):
+                if k.endswith("_integral") and v.dim() == 3:
+                    v = v.reshape(v.shape[0], 1, -1)
+                    args = dict(args, **{k: v})
                 env[k] = v if v.dim() > 0 else v.reshape(1)
                 if like is None or v.numel() > like.numel():
                     like = env[k][..., 0]
@@ -361,6 +550,13 @@ def run_sm(case):
             cond = tp.conditions.DeepRitzCondition(model, sampler, resid, **kw)
         elif cls == "hpm":
             cond = tp.conditions.HPM_EquationLoss_at_Sampler(model, sampler, resid, **kw)
+        elif cls == "aw":
+            cond = tp.conditions.AdaptiveWeightsCondition(model, sampler, resid, error_fn=ERR_FNS[case["err"]](tp, torch), **kw)
+            w0 = cond.adaptive_layer.weight
+            out["aw_initial_ones"] = bool(torch.all(w0 == 1.0)) and len(w0) == len(case["weights"])
+            out["aw_registered"] = any(p is w0 for p in cond.parameters())
+            with torch.no_grad():
+                w0.copy_(torch.tensor([float(F(v)) for v in case["weights"]]))
         else:
             cond = tp.conditions.SingleModuleCondition(model, sampler, resid, ERR_FNS[case["err"]](tp, torch),
                                                        reduce_fn=RED_FNS[case["red"]](torch), **kw)
@@ -423,6 +619,12 @@ def lines_sm(case, res):
             lines.append(None)
             continue
         p = pts[0]
+        if case["cls"] == "aw":
+            lines.append(" ".join(["aw", tok_space(p["space"]), tok_table(p["rows"]), net_tok(case["net"]), resid_ufun_tok(case),
+                                   lst(case["data"], lambda d: d["name"] + " " + fn_tok(d)), pre,
+                                   tok_named([(n, [F(v) for v in vs]) for n, vs in case["param"]]), case["err"],
+                                   cc.tok_vec([F(v) for v in case["weights"]])]))
+            continue
         net = "0" if case["cls"] == "hpm" else "1 " + net_tok(case["net"])
         lines.append(" ".join(["sm", tok_space(p["space"]), tok_table(p["rows"]), net, resid_ufun_tok(case),
                                lst(case["data"], lambda d: d["name"] + " " + fn_tok(d)), pre,
@@ -552,6 +754,8 @@ def judge_sm(rep, case, res, replies):
         return
     if not res.get("weight_ok", True):
         rep.fail("condition.weight is not the weight given to the constructor", case)
+    if cls == "aw" and not (res.get("aw_initial_ones") and res.get("aw_registered")):
+        rep.fail("AdaptiveWeightsCondition: the point weights are not one learnable, registered weight 1.0 per sampled point", case)
     want_draws = len(case["data"]) if (case["static"] and case["interval"] is None) else 0
     if len(res["construct_points"]) != want_draws:
         rep.disagree("sm: number of point sets drawn from the sampler during construction", case,
@@ -579,6 +783,10 @@ def judge_sm(rep, case, res, replies):
             continue
         # ---- oracle 1: documented reduction of the residual values the residual function returned
         doc = documented_reduction(case["err"], case["red"], out)
+        if cls == "aw":
+            # mean over the points of (learnable weight of the point) x (error of the point)
+            un = [sum(v * v for v in r) if case["err"] == "sq" else sum(abs(v) for v in r) for r in expand(out, n)]
+            doc = sum(F(w) * u for w, u in zip(case["weights"], un)) / len(un) if len(un) == len(case["weights"]) else None
         if doc is None or not close(loss, float(doc), *ltol):
             rep.fail(f"{cls}: forward call {k} returned {loss!r}; the documented reduction ({case['err']}/{case['red']}) of the "
                      f"residual values on the {n} sampled points is {float(doc) if doc is not None else None!r}", case,
@@ -1262,10 +1470,10 @@ def judge_don(rep, case, res, replies):
 
 # ------------------------------------------------------------------------------------------------
 
-GEN = dict(sm=gen_sm, data=gen_data, per=gen_per, don=gen_don)
-RUN = dict(sm=run_sm, data=run_data, per=run_per, don=run_don)
-LINES = dict(sm=lines_sm, data=lines_data, per=lines_per, don=lines_don)
-JUDGE = dict(sm=judge_sm, data=judge_data, per=judge_per, don=judge_don)
+GEN = dict(sm=gen_sm, data=gen_data, per=gen_per, don=gen_don, int=gen_int)
+RUN = dict(sm=run_sm, data=run_data, per=run_per, don=run_don, int=run_int)
+LINES = dict(sm=lines_sm, data=lines_data, per=lines_per, don=lines_don, int=lines_int)
+JUDGE = dict(sm=judge_sm, data=judge_data, per=judge_per, don=judge_don, int=judge_int)
 
 
 def gen_cases(ctx):
@@ -1281,6 +1489,10 @@ def gen_cases(ctx):
         cases.append(gen_per(ctx, rng))
     for _ in range(ctx.scale(60, 700)):
         cases.append(gen_don(ctx, rng))
+    for _ in range(ctx.scale(70, 800)):
+        cases.append(gen_int(ctx, rng))
+    for _ in range(ctx.scale(30, 350)):
+        cases.append(gen_aw(ctx, rng))
     return cases
 
 
@@ -1292,6 +1504,8 @@ def nontrivial(case):
         return len(case["xs"]) >= 2
     if case["kind"] == "per":
         return case["n"] >= 2 or bool(case["data"])
+    if case["kind"] == "int":
+        return case["n"] >= 2 and case["m"] >= 2
     if case["kind"] == "don":
         return case["F"] >= 2 and any(sub["n"] >= 2 for sub in case["subs"])
     return True
@@ -1299,7 +1513,7 @@ def nontrivial(case):
 
 def key_of(case):
     c = dict(case)
-    for k in ("sets", "xs", "ys", "psets", "xsets"):
+    for k in ("sets", "isets", "xs", "ys", "psets", "xsets", "weights"):
         c.pop(k, None)
     if "subs" in c:
         c["subs"] = [{k: v for k, v in sub.items() if k != "xsets"} for sub in c["subs"]]
